@@ -447,10 +447,22 @@ func (w *World) spliced(fn *ssa.Function, cache map[*ssa.Function]*FG, isSite fu
 		var rets [][]ssa.Value
 		nret := 0
 		onNil, onNonNil, threaded := w.nilTestAfter(g, c)
+		onTrue, onFalse, bthreaded := w.boolTestAfter(g, c)
 		for _, b := range h.Blocks {
 			for _, in := range b.Instrs {
 				if r, ok := in.(*ssa.Return); ok {
 					g.succ[g.idx[in]] = append([]int(nil), after...)
+					if bthreaded && len(r.Results) == 1 {
+						// the caller branches on the boolean result right away: a constant result takes its branch only
+						if k, isK := r.Results[0].(*ssa.Const); isK && k.Value != nil {
+							switch k.Value.ExactString() {
+							case "true":
+								g.succ[g.idx[in]] = []int{onTrue}
+							case "false":
+								g.succ[g.idx[in]] = []int{onFalse}
+							}
+						}
+					}
 					if threaded && len(r.Results) == 1 {
 						// the caller tests the result against nil right away: a return whose
 						// value is known nil / non-nil continues on that branch only
@@ -944,4 +956,47 @@ func pinnedShortName(n *types.Named) string {
 		}
 	}
 	return name
+}
+
+
+// boolTestAfter: call c's (single, boolean) result is what the rest of its block branches on (`if f()` / `if !f()`).
+func (w *World) boolTestAfter(g *FG, c *ssa.Call) (onTrue, onFalse int, ok bool) {
+	b := c.Block()
+	pos := -1
+	for i, in := range b.Instrs {
+		if in == ssa.Instruction(c) {
+			pos = i
+		}
+	}
+	if pos < 0 || len(b.Succs) != 2 {
+		return 0, 0, false
+	}
+	iff, isIf := b.Instrs[len(b.Instrs)-1].(*ssa.If)
+	if !isIf {
+		return 0, 0, false
+	}
+	for _, in := range b.Instrs[pos+1 : len(b.Instrs)-1] {
+		switch in.(type) {
+		case *ssa.UnOp, *ssa.DebugRef:
+		default:
+			return 0, 0, false
+		}
+	}
+	t, f := g.first[b.Succs[0]], g.first[b.Succs[1]]
+	cond := iff.Cond
+	neg := false
+	for {
+		if u, isU := cond.(*ssa.UnOp); isU && u.Op == token.NOT {
+			cond, neg = u.X, !neg
+			continue
+		}
+		break
+	}
+	if cond != ssa.Value(c) {
+		return 0, 0, false
+	}
+	if neg {
+		return f, t, true
+	}
+	return t, f, true
 }
